@@ -156,6 +156,8 @@ PROPS["C09"] = {
              "concurrent unit (race-detector build): 2..6 goroutines each write their own generated Spec 3..20 times into their own "
              "directory through their own cache at the same time; every writer's round trip must hold; then two of them publish under ONE "
              "name in one directory, in both encodings: whatever is published in the end must read back as exactly one of the two Specs. "
+             "large unit: three (thorough: six) Specs of 1.1 .. 3 MiB written form (5000 or 12000 devices; 6 or 12 devices with annotations of "
+             "200 .. 250 KiB; annotation values of control characters or line breaks) through the same round trip. "
              "Non-trivial iff some string is outside [A-Za-z0-9_./=-]* or an integer extreme is present; distinct = distinct Specs."),
     "assumptions": ["strings are valid UTF-8 (the statement's domain)", "canonical image = encoding/json of specs.Spec (nil and empty lists equal)"],
     "manifest": {
@@ -171,6 +173,7 @@ PROPS["C09"] = {
         {"name": "dictionary", "mode": "plain", "run": "TestC09Dictionary", "shards": 4},
         {"name": "rapid", "mode": "rapid", "run": "TestC09Rapid", "checks": {"quick": 24000, "thorough": 480000}},
         {"name": "concurrent", "mode": "rapid", "run": "TestC09Concurrent", "race": True, "shards": 8, "checks": {"quick": 160, "thorough": 8000}},
+        {"name": "large", "mode": "plain", "run": "TestC09Large", "shards": {"quick": 3, "thorough": 6}},
     ],
 }
 
